@@ -38,6 +38,10 @@ CHECKS = {
    text="seeded Iter/Invoke builder chains over counted, fault-injectable sources (finite and infinite): every-prefix consumers, two live iterators pulled alternately, builder histories, source fault at item j, abandoned consumers; outputs equal the itertools/boltons composition, pulls bounded by the reference pulls + window slack, step budget on infinite sources, base specs unchanged.",
    note="trusts: itertools and boltons iterutils as the definition of the stages; stage callbacks total and SKIP/STOP-free",
    technique="deterministic simulation of lazy pipelines under consumer schedules and source faults, reference-composition oracle with pull counting"),
+ "C19": dict(level="exploration", engine="procsim", design="4/C19",
+   text="seeded CLI invocations run in-process against a stubbed process boundary (in-memory file system with errno faults, undecodable / truncated / malformed content, stdin that is a tty, closed, failing or undecodable; captured stdout/stderr/exit status), spec and target routed through argv / file / stdin in four target formats; output compared with json.dumps(glom(target, spec)); a seeded sample repeated as real `python -m glom` subprocesses. The 'never executed' clause is input sampling only (tripwires on exec/eval/compile + canary).",
+   note="trusts: stub boundary == real boundary (validated on the subprocess sample); stdlib/yaml/toml parsers; 'never executed' is sampled, not decided",
+   technique="deterministic simulation of the process boundary with I/O fault injection; differential oracle against the library; input sampling for the no-exec clause"),
  "C20": dict(level="exploration", engine="schedsim", design="4/C20",
    text="seeded search over schedules (baton-passing threads, switches at collaborator points and at source-line events inside glom) and re-entrant nestings; every task compared with the same recipe run alone in a cold private instance (outcome incl. full trace text, and the task's own collaborator-event log). A clean batch is evidence, not proof.",
    note="trusts: line-granular (not bytecode-granular) pre-emption; the isolated run of the same code as reference; sys.settrace semantics of CPython 3.12",
